@@ -552,6 +552,12 @@ func (a *Application) startProxyGoroutine(
 	go func() {
 		localCtx, localR := a.prepareProxyContext(ctx, r, pr)
 		err := a.proxyService.ProxyRequestToEndpoints(localCtx, streamRecorder, localR, endpoints, pr.stats, pr.requestLogger)
+		if err != nil {
+			// The proxy gave up. If it never wrote anything, the waiting handler would see the
+			// recorder's default 200 and translate the empty pipe into a fabricated empty
+			// completion. Tell it that no backend answered (no-op once headers were signalled).
+			streamRecorder.failIfUnanswered(http.StatusBadGateway)
+		}
 		// If the proxy returned an error without ever calling Write or WriteHeader,
 		// headersReady is never closed and the main goroutine blocks forever.
 		// Ensure it is always signalled before closing the pipe.
@@ -873,6 +879,16 @@ func (r *streamingResponseRecorder) Header() http.Header {
 // multiple goroutines and is idempotent — subsequent calls are no-ops.
 func (r *streamingResponseRecorder) ensureHeadersReady() {
 	r.closeOnce.Do(func() { close(r.headersReady) })
+}
+
+// failIfUnanswered marks the response as failed with the given status, but only if no
+// status or body byte has been recorded yet. The status is stored before headersReady is
+// closed, so the goroutine waiting on headersReady observes it.
+func (r *streamingResponseRecorder) failIfUnanswered(statusCode int) {
+	r.closeOnce.Do(func() {
+		r.status = statusCode
+		close(r.headersReady)
+	})
 }
 
 func (r *streamingResponseRecorder) Write(data []byte) (int, error) {
